@@ -155,15 +155,11 @@ Theorem C14_copy_total : forall st, copy_panics_model st = copy_panics_spec st.
 Proof. exact copy_total. Qed.
 Print Assumptions C14_copy_total.
 
-(* Date.prototype.toJSON: otto's test for "tv is a Number and is not finite" (model) also fires on
-   String primitives (finding C14-tojson-nonnumber-primitive); the two agree on Numbers and Booleans *)
-Theorem C14_tojson_refuted : exists tv, tojson_null_model tv <> tojson_null_spec tv.
-Proof. exists (TJStr false). vm_compute. discriminate. Qed.
-Print Assumptions C14_tojson_refuted.
-
-Theorem C14_tojson_agrees_on_numbers : forall f, tojson_null_model (TJNum f) = tojson_null_spec (TJNum f).
-Proof. exact tojson_numbers. Qed.
-Print Assumptions C14_tojson_agrees_on_numbers.
+(* Date.prototype.toJSON step 3: otto's test (model, as repaired by f1c4c70) is the ES5 one for every
+   kind of primitive, Numbers, Strings and Booleans alike *)
+Theorem C14_tojson_refines : forall tv, tojson_null_model tv = tojson_null_spec tv.
+Proof. exact tojson_refines. Qed.
+Print Assumptions C14_tojson_refines.
 
 (* non-vacuity *)
 Example C14_table_size :
